@@ -2789,4 +2789,108 @@ theorem allComparable_of : ∀ (l : List Cell), (∀ a ∈ l, ∀ b ∈ l, a.key
     exact ⟨fun y hy => h x (by simp) y (by simp [hy]), allComparable_of xs (fun a ha b hb => h a (by simp [ha]) b (by simp [hb]))⟩
 
 
+/-- key of row `x` of the table `t0` (before indexing) in column `d` -/
+def K0 (t0 : Table) (d x : Nat) : Key := (cellAt (t0.base d) x).key
+
+/-- an index column: stored, cells mutually comparable, none of them `None` -/
+structure IdxColOK (t0 : Table) (N : Nat) (d : Nat) : Prop where
+  stored : ∃ b, lookupCol t0.data d = .ok b ∧ b.length = N
+  cmp : ∀ x y, x < N → y < N → (K0 t0 d x).comparable (K0 t0 d y) = true
+  nn : ∀ x, x < N → K0 t0 d x ≠ .none
+
+/-- the stored lists between the stages: a processed column shows, up to `==`, the original cells
+in the current order; the others are untouched -/
+structure DataInv (t0 : Table) (N : Nat) (done : List Nat) (data : List (Nat × List Cell)) (perm : List Nat) : Prop where
+  doneCols : ∀ d ∈ done, ∃ col, lookupCol data d = .ok col ∧ col.length = N ∧
+    ∀ i, i < N → (cellAt col i).key = K0 t0 d (perm.getD i 0)
+  rest : ∀ c, c ∉ done → lookupCol data c = lookupCol t0.data c
+  keys : data.map (·.1) = t0.data.map (·.1)
+  lens : ∀ p ∈ data, p.2.length = N
+
+theorem perm_getD_lt {perm : List Nat} {N : Nat} (h : perm.Perm (List.range N)) (i : Nat) (hi : i < N) :
+    perm.getD i 0 < N := by
+  have hl : perm.length = N := by rw [h.length_eq]; simp
+  have hm : perm.getD i 0 ∈ perm := by
+    simp only [List.getD, List.getElem?_eq_getElem (show i < perm.length by omega), Option.getD_some]
+    exact List.getElem_mem _
+  have := h.mem_iff.mp hm
+  simpa using this
+
+theorem seq_shows_all (c : List Cell) : Seq.Shows { base := c, sel := .all } c := by
+  have := seq_shows c .all ⟨by simpa [Sel.idx, StrictInc, List.range_eq_range'] using (List.pairwise_lt_range' (s := 0) (n := c.length)),
+    by simp [Sel.idx]⟩
+  simpa [viewOf, Sel.idx, map_cellAt_range] using this
+
+theorem setCol_keys (data : List (Nat × List Cell)) (c : Nat) (v : List Cell) :
+    (setCol data c v).map (·.1) = data.map (·.1) := by
+  simp only [setCol, List.map_map]
+  apply List.map_congr_left
+  intro p _
+  by_cases h : (p.1 == c) = true <;> simp [Function.comp, h]
+
+theorem setCol_lens (data : List (Nat × List Cell)) (c : Nat) (v : List Cell) (N : Nat)
+    (h : ∀ p ∈ data, p.2.length = N) (hv : v.length = N) : ∀ p ∈ setCol data c v, p.2.length = N := by
+  intro p hp
+  simp only [setCol, List.mem_map] at hp
+  obtain ⟨q, hq, rfl⟩ := hp
+  by_cases hc : (q.1 == c) = true
+  · simp [hc, hv]
+  · simp [hc, h q hq]
+
+/-- one stage: what sorting the blocks by column `col` does to the invariants -/
+theorem stage_data (t0 : Table) (N : Nat) (done : List Nat) (data : List (Nat × List Cell))
+    (lohis : List (Nat × Nat)) (perm : List Nat) (col : Nat) (hcol : col ∉ done) (hok : IdxColOK t0 N col)
+    (hs : StageInv (K0 t0) N done perm lohis) (hd : DataInv t0 N done data perm) :
+    ∃ b, lookupCol data col = .ok b ∧ b = t0.base col ∧
+      sortSegments (fun i => b.getD i .missing) lohis perm = .ok (sortBlocks (cellAt b) perm lohis) ∧
+      DataInv t0 N (done ++ [col]) (setCol data col ((sortBlocks (cellAt b) perm lohis).map (cellAt b))) (sortBlocks (cellAt b) perm lohis) := by
+  obtain ⟨b, hb, hbl⟩ := hok.stored
+  have hbase : t0.base col = b := by simp [Table.base, hb]
+  have hlook : lookupCol data col = .ok b := by rw [hd.rest col hcol, hb]
+  have hlen := hs.len
+  have hN : N = perm.length := hlen.symm
+  refine ⟨b, hlook, hbase.symm, ?_, ?_⟩
+  · have := sortSegments_spec (cellAt b) hs.segs perm hN (by
+      intro p hp
+      apply allComparable_of
+      intro x hx y hy
+      rw [List.mem_map] at hx hy
+      obtain ⟨u, hu, rfl⟩ := hx
+      obtain ⟨w, hw, rfl⟩ := hy
+      have hb2 := hs.segs.bounds p hp
+      obtain ⟨i, _, i2, rfl⟩ := (mem_slice_iff perm p.1 p.2 hb2.2.1 (by omega) u).mp hu
+      obtain ⟨j, _, j2, rfl⟩ := (mem_slice_iff perm p.1 p.2 hb2.2.1 (by omega) w).mp hw
+      have := hok.cmp _ _ (perm_getD_lt hs.isPerm i (by omega)) (perm_getD_lt hs.isPerm j (by omega))
+      simpa [K0, hbase] using this)
+    show sortSegments (cellAt b) lohis perm = .ok (sortBlocks (cellAt b) perm lohis)
+    simpa [sortBlocks] using this
+  · obtain ⟨hs', _⟩ := stage_sort (K0 t0) N done perm lohis hs (cellAt b)
+    obtain ⟨l1, _, _⟩ := sortBlocks_slices (cellAt b) perm lohis N hs.segs hN
+    refine ⟨?_, ?_, ?_, ?_⟩
+    · intro d hdm
+      rw [List.mem_append] at hdm
+      rcases hdm with hdm | hdm
+      · have hne : d ≠ col := fun e => hcol (e ▸ hdm)
+        obtain ⟨cd, h1, h2, h3⟩ := hd.doneCols d hdm
+        refine ⟨cd, by rw [lookupCol_setCol, if_neg hne, h1], h2, ?_⟩
+        intro i hi
+        rw [h3 i hi]
+        obtain ⟨p, hp, p1, p2⟩ := hs.segs.cover i (Nat.zero_le _) hi
+        obtain ⟨i', a1, a2, a3⟩ := sortBlocks_pos (cellAt b) perm lohis N hs.segs hN p hp i p1 p2
+        rw [a3]
+        exact hs.agree d hdm p hp i i' p1 p2 a1 a2
+      · simp at hdm; subst hdm
+        refine ⟨_, by rw [lookupCol_setCol, if_pos rfl, hlook], by simp [l1], ?_⟩
+        intro i hi
+        rw [cellAt_map_getD (cellAt b) _ i (by omega)]
+        simp [K0, hbase]
+    · intro c hc
+      rw [List.mem_append] at hc
+      have h1 : c ∉ done := fun h => hc (Or.inl h)
+      have h2 : c ≠ col := fun h => hc (Or.inr (by simp [h]))
+      rw [lookupCol_setCol, if_neg h2, hd.rest c h1]
+    · rw [setCol_keys, hd.keys]
+    · exact setCol_lens data col _ N hd.lens (by simp [l1])
+
+
 end Coba.C17
